@@ -140,7 +140,13 @@ def tokenStream (argv : List Word) : String :=
     match fuel with
     | 0 => "oob fuel" ++ acc
     | fuel + 1 =>
-      if it.atEnd then "ok" ++ acc
+      if it.atEnd then
+        -- one more `++` on the end iterator, as `Handler::iterateArguments()` does after a sub-group
+        -- argument that was the last word: it must stay the end iterator
+        match it.step with
+        | .ok it' => "ok" ++ acc ++ (if it'.atEnd then " E" else " E!")
+        | .throw e => s!"throw {e.name} after{acc} E"
+        | .oob w => s!"oob {w} after{acc} E"
       else
         let acc := acc ++ showElem it.cur
         match it.step with
@@ -238,6 +244,10 @@ def step (s : St) (line : String) : St × String :=
       | none => (s, "bad-op")
       | some ws =>
         let file := (kv opts "file").map (fun f => (splitBar f).filterMap word)
+        -- fileraw=<hex>: the bytes of the argument file as they are (last line with or without newline)
+        let file := match (kv opts "fileraw").bind word with
+          | some content => some (fileLines content)
+          | none => file
         let env := ((kv opts "env").bind word)
         -- an empty environment value is ignored by the handler
         let env := match env with | some [] => none | e => e
